@@ -95,4 +95,4 @@ package rangeplugin
 // C03: the database holds exactly the bindings of the table, with their addresses and expiries
 //@   requires dbmirror(p)
 //@   ensures[C03:database-mirrors-the-bindings] dbmirror(p)
-//@   ensures[C02:configured-lease-time] ret0 != nil ==> has(resp.Options, 51)
+//@   ensures[C02:configured-lease-time] ret0 != nil ==> (has(resp.Options, 51) && resp.Options[51] == optenc(opt_dur(51, dround(p.LeaseTime, 1000000000))))
